@@ -183,6 +183,7 @@ void disasm_range_4004(
   char instruction[128];
   int cycles_min = 0, cycles_max = 0;
   uint16_t opcode;
+  int count;
 
   printf("\n");
 
@@ -191,7 +192,7 @@ void disasm_range_4004(
 
   while (start <= end)
   {
-    disasm_4004(
+    count = disasm_4004(
       memory,
       start,
       instruction,
@@ -200,9 +201,11 @@ void disasm_range_4004(
       &cycles_min,
       &cycles_max);
 
-    opcode = memory->read16(start);
+    // One or two bytes, shown as memory holds them.
+    opcode = count == 1 ? memory->read8(start) :
+                         ((memory->read8(start) << 8) | memory->read8(start + 1));
 
-    printf("0x%04x: 0x%04x %-40s ", start / 2, opcode, instruction);
+    printf("0x%04x: 0x%0*x%s %-40s ", start, count * 2, opcode, count == 1 ? "  " : "", instruction);
 
     if (cycles_min == 0)
     {
@@ -218,7 +221,7 @@ void disasm_range_4004(
       printf("%d-%d\n", cycles_min, cycles_max);
     }
 
-    start = start + 2;
+    start = start + count;
   }
 }
 
